@@ -76,4 +76,28 @@ CHECKS = {
         "required_probes": {"quick": ["cache_hit", "query_overlaps_reload", "reload_ok"],
                             "thorough": ["cache_hit", "cache_expired", "query_overlaps_reload", "reload_ok"]},
     },
+    "C19": {
+        "test": "TestC19",
+        "level": "exploration",
+        "budget": {"quick": 40, "thorough": 600},
+        "rule": ("two populations. window: a timed history of AddSample / clock advance (sub-tick, tick, lifetime +- eps) / Get on the real "
+                 "metrics.Stats with a seeded lifetime, the real cleaner goroutine scheduled at its tick; each Get is compared with a reference "
+                 "window L <= M <= U (live samples must be reported, expired ones may linger until the next cleaner pass), and the window must be "
+                 "empty after lifetime + 5.5 s of silence. server: the C05 workload with recording Stats and Logger; per query the counter deltas "
+                 "and logger calls must be exactly what the message actually written dictates. Non-trivial = a Get with live samples (window) / "
+                 "queries under pre-emption (server); distinct = schedule + event hash."),
+        "components": {
+            "real": ["metrics.Stats, slidingWindow and its cleaner goroutine (1 s ticker on the fake clock)",
+                     "dnsserver.FBDNSDB.ServeDNS / writeAndLog counters and logger calls", "cdb / rocksdb drivers"],
+            "stub": ["recording stats.Stats and dnsserver.Logger with per-goroutine attribution (server population)"],
+            "simulated": ["clock and tickers", "goroutine scheduling at yield points (seeded)"],
+            "not_run": ["prometheus exporter", "concurrent increments on metrics.Stats under the race detector (free-running tier, see C14)"],
+        },
+        "assumptions": [
+            "a sample may linger until the first cleaner pass after its expiry (the one-second cleaner granularity is the code's design)",
+            "an all-empty window exports zeros by design and is accepted as such",
+        ],
+        "required_probes": {"quick": ["get_with_live_samples", "get_with_lingering_expired_samples", "cleaner_passes"],
+                            "thorough": ["get_with_live_samples", "get_with_lingering_expired_samples", "cleaner_passes"]},
+    },
 }
